@@ -46,7 +46,7 @@ DecisionOK(dls, ep0, k, ok) ==
 VARIABLES stage,                 \* the authority's rotation stage
           has, cs, fresh,        \* manager: a key set is cached, which, and whether it counts as fresh
           lock,                  \* "free" or who holds m.mutex
-          call,                  \* per caller [st, k, ep0, set]: st = idle | want | fetching | done
+          call,                  \* per caller [st, k, ep0, set]: st = idle (not started / returned) | want | fetching
           ref,                   \* RefreshJWTJWKS call: idle | want
           epoch, dls,            \* number of refresh returns; downloads served so far
           bad                    \* some decision violated DecisionOK
@@ -62,7 +62,7 @@ Init == /\ stage = 1 /\ has = FALSE /\ cs = {} /\ fresh = FALSE /\ lock = "free"
 Enter(c) ==
     /\ call[c].st = "want" /\ (FetchUnlocked \/ lock = "free")
     /\ IF has /\ fresh
-       THEN /\ call' = [call EXCEPT ![c].st = "done"]
+       THEN /\ call' = [call EXCEPT ![c] = Idle]
             /\ bad' = (bad \/ ~DecisionOK(dls, call[c].ep0, call[c].k, call[c].k \in cs))
             /\ UNCHANGED <<lock, dls>>
        ELSE /\ call' = [call EXCEPT ![c].st = "fetching", ![c].set = PubOf(stage)]
@@ -80,7 +80,7 @@ Quiescent == ~ENABLED Internal
 
 \* --- driver actions
 StartAuth(c, k) ==
-    /\ Quiescent /\ call[c].st \in {"idle", "done"}
+    /\ Quiescent /\ call[c].st = "idle"
     /\ call' = [call EXCEPT ![c] = [st |-> "want", k |-> k, ep0 |-> epoch, set |-> {}]]
     /\ UNCHANGED <<stage, has, cs, fresh, lock, ref, epoch, dls, bad>>
 StartRefresh ==
@@ -94,7 +94,7 @@ Rotate ==
 Release(c) ==
     /\ Quiescent /\ call[c].st = "fetching"
     /\ has' = TRUE /\ cs' = call[c].set /\ fresh' = TRUE
-    /\ call' = [call EXCEPT ![c].st = "done"]
+    /\ call' = [call EXCEPT ![c] = Idle]
     /\ bad' = (bad \/ ~DecisionOK(dls, call[c].ep0, call[c].k, call[c].k \in call[c].set))
     /\ lock' = IF FetchUnlocked THEN lock ELSE "free"
     /\ UNCHANGED <<stage, ref, epoch, dls>>
